@@ -105,7 +105,9 @@ class Model:
     # ------------------------------------------------------------------- step
     def step(self, verb, arg="", data="before", payload=b""):
         v = verb.upper()
-        reset_rest = v not in ("RETR", "STOR", "APPE", "REST")
+        # the restart offset "applies only to the immediately following transfer": whatever command comes next ends it -
+        # a transfer command uses it or, when it is refused (503, 550), lets it lapse
+        reset_rest = v != "REST"
         try:
             return self._step(v, arg, data, payload)
         finally:
@@ -137,11 +139,13 @@ class Model:
                     return Expect(["230"])
                 return Expect(["331"])
             if None in self.users:
-                self.user = None
                 self.anon = True
-                self.logged = True
                 self.user = "<anonymous>"
                 self.cwd = self.home
+                if self.users[None] is not None:
+                    # the catch-all account has a password: it is asked for like any other
+                    return Expect(["331"])
+                self.logged = True
                 return Expect(["230"])
             return Expect(["530"])
         if v == "PASS":
@@ -149,7 +153,7 @@ class Model:
                 return Expect(["503"])
             if self.logged:
                 return Expect(["503"])
-            if self.users.get(self.user) == arg:
+            if self.users.get(None if self.user == "<anonymous>" else self.user) == arg:
                 self.logged = True
                 return Expect(["230"])
             return Expect(["530"])
@@ -305,12 +309,10 @@ class Model:
             return Expect(["503"], note="no passive listener")
         p = norm(self.cwd, arg)
         rest = self.rest
-        alt = getattr(self, "rest_maybe", None)   # offset left over from a refused transfer: may or may not apply
-        self.rest_maybe = None
+        alt = None      # (a refused transfer command leaves no offset behind: see step())
         huge = rest >= 2 ** 62 or (alt or 0) >= 2 ** 62
         if v == "RETR":
             if not self.is_file(p):
-                self.rest_maybe = rest or alt
                 self.rest = 0
                 return self._refused()
             self.rest = 0
